@@ -215,7 +215,12 @@ fn traj(c: &Value) -> Value {
     let (nc, n, d) = (out.shape[0], out.shape[1], out.shape[2]);
     let per: Vec<String> = (0..nc).map(|i| format!("{:016x}", fnv(&out.bits[i * n * d..(i + 1) * n * d]))).collect();
     let first: Vec<Vec<u64>> = (0..nc).map(|i| out.bits[i * n * d..i * n * d + d].to_vec()).collect();
-    json!({"per_chain": per, "first_rows": first, "shape": out.shape})
+    // a chain whose rows are all one state made no move at all (every proposal rejected): two such chains
+    // started from the common state coincide without sharing any randomness
+    let moved: Vec<bool> = (0..nc)
+        .map(|i| (1..n).any(|k| out.bits[(i * n + k) * d..(i * n + k + 1) * d] != out.bits[i * n * d..i * n * d + d]))
+        .collect();
+    json!({"per_chain": per, "first_rows": first, "shape": out.shape, "moved": moved})
 }
 
 pub fn run08(c: &Value) -> Value {
